@@ -628,6 +628,92 @@ func c07Reads(cs *h.Case, huge bool) {
 			}
 			cs.Cover("api_GetMany")
 		}
+		// conversion to Go values with CastStringAsBinary: a string field arrives as its bytes
+		m.Range(func(fd protoreflect.FieldDescriptor, v protoreflect.Value) bool {
+			if fd.Kind() != protoreflect.StringKind || fd.IsList() || fd.IsMap() {
+				return true
+			}
+			got, err := root.Field(dproto.FieldNumber(fd.Number())).Interface(&pg.Options{CastStringAsBinary: true})
+			if b, ok := got.([]byte); err != nil || !ok || string(b) != v.String() {
+				cs.Viol("pread:Interface(CastStringAsBinary)", "err", err, "got", fmt.Sprintf("%T %v", got, got), "want", v.String())
+			}
+			cs.Cover("api_Interface_string_as_binary")
+			return true
+		})
+		// bulk lookup inside containers: several indexes / keys at once, asked for in another order than they lie on
+		// the wire, on the container as GetByPath delivers it (sized) and as Field delivers it (size unknown);
+		// one past the last index is an error there too
+		m.Range(func(fd protoreflect.FieldDescriptor, v protoreflect.Value) bool {
+			if !fd.IsList() && !fd.IsMap() {
+				return true
+			}
+			fdesc := desc.Message().ByNumber(dproto.FieldNumber(fd.Number()))
+			if fdesc == nil {
+				return true
+			}
+			for vi, cont := range []pg.Value{root.GetByPath(pg.NewPathFieldId(dproto.FieldNumber(fd.Number()))), root.Field(dproto.FieldNumber(fd.Number()))} {
+				api := []string{"GetByPath+GetMany", "Field+GetMany"}[vi]
+				if cont.IsError() {
+					continue
+				}
+				var ps []pg.PathNode
+				var wants []pnode
+				base := []pg.Path{pg.NewPathFieldId(dproto.FieldNumber(fd.Number()))}
+				if fd.IsList() {
+					l := v.List()
+					for k := 0; k < l.Len() && k < 8; k++ {
+						ps = append(ps, pg.PathNode{Path: pg.NewPathIndex(k)})
+						wants = append(wants, pnode{path: append(append([]pg.Path{}, base...), pg.NewPathIndex(k)), fd: fd, v: l.Get(k), kind: 1, depth: 1})
+					}
+					if x := cont.Index(l.Len()); !x.IsError() {
+						cs.Viol("pread:"+api[:len(api)-8]+"+Index:found-absent:index-len:"+kindClass(fd, 0), "field", fd.Number(), "len", l.Len())
+					}
+				} else {
+					v.Map().Range(func(k protoreflect.MapKey, mv protoreflect.Value) bool {
+						if len(ps) >= 8 {
+							return false
+						}
+						var p pg.Path
+						if fd.MapKey().Kind() == protoreflect.StringKind {
+							p = pg.NewPathStrKey(k.String())
+						} else if fd.MapKey().Kind() == protoreflect.BoolKind {
+							return false
+						} else if u, ok := k.Interface().(uint64); ok {
+							if u > 1<<62 {
+								return true
+							}
+							p = pg.NewPathIntKey(int(u))
+						} else if u, ok := k.Interface().(uint32); ok {
+							p = pg.NewPathIntKey(int(u))
+						} else {
+							p = pg.NewPathIntKey(int(k.Int()))
+						}
+						ps = append(ps, pg.PathNode{Path: p})
+						wants = append(wants, pnode{path: append(append([]pg.Path{}, base...), p), fd: fd, v: mv, kind: 2, depth: 1})
+						return true
+					})
+				}
+				// another order than the wire's
+				for i := len(ps) - 1; i > 0; i-- {
+					j := cs.R.Intn(i + 1)
+					ps[i], ps[j] = ps[j], ps[i]
+					wants[i], wants[j] = wants[j], wants[i]
+				}
+				if len(ps) == 0 {
+					continue
+				}
+				if err := cont.GetMany(ps, opts); err != nil {
+					cs.Viol("pread:"+api+":error:"+kindClass(fd, 0), "err", err, "paths", len(ps))
+					continue
+				}
+				et := fdesc.Type().Elem()
+				for i := range ps {
+					c07Check(cs, api, pg.Value{Node: ps[i].Node, Desc: et}, wants[i], opts)
+				}
+				cs.Cover("api_GetMany_in_container")
+			}
+			return true
+		})
 		// DOM load (recursive and lazy) and Children listing: every first-level child is re-read as a whole, and
 		// the elements of list and map children through the single-step accessors of the child node
 		domCheck := func(api string, kids []pg.PathNode) {
